@@ -242,7 +242,7 @@ func (u *Unit) callByContractOrDefault(fc *frameCtx, name string, con *Contract,
 	nres := sig.Results().Len()
 	var res []*SV
 	if con.Pure {
-		res = u.pureApp(name, con, sig, args, st, pc)
+		res = u.pureApp(name, con, sig, args, st, pc, env)
 	} else {
 		if !con.NoHeap {
 			if spec {
@@ -369,7 +369,13 @@ func (u *Unit) contractEnv(con *Contract, sig *types.Signature, invoke bool, arg
 }
 
 // pureApp builds the uninterpreted application f(args..., heaps read).
-func (u *Unit) pureApp(name string, con *Contract, sig *types.Signature, args []*SV, st *State, pc *Term) []*SV {
+type pureCall struct {
+	res   []*Term
+	leaves []leafLoc
+	heaps map[string]*Term // heap key -> array at the time of the application
+}
+
+func (u *Unit) pureApp(name string, con *Contract, sig *types.Signature, args []*SV, st *State, pc *Term, env *SpecEnv) []*SV {
 	c := u.c
 	var ts []*Term
 	var sorts []*Sort
@@ -380,6 +386,35 @@ func (u *Unit) pureApp(name string, con *Contract, sig *types.Signature, args []
 		}
 	}
 	reads := u.e.readSet(name, con)
+	var footprint *FrameSpec
+	if len(con.ReadLocs) > 0 && env != nil {
+		footprint = &FrameSpec{}
+		for _, m := range con.ReadLocs {
+			u.addModifies(footprint, env, m)
+		}
+		if len(footprint.Maps) > 0 {
+			footprint = nil
+		}
+	}
+	if footprint != nil {
+		// the function depends on the heap only through its declared footprint: the values of the listed locations
+		// and the versions of the listed objects
+		reads = nil
+		for _, l := range footprint.Leaves {
+			v := c.Select(u.heapArr(st, l.Sort), l.Addr)
+			if l.Cond != nil {
+				v = c.Ite(l.Cond, v, u.zeroLeaf(l.Sort))
+			}
+			ts = append(ts, v)
+			sorts = append(sorts, l.Sort)
+		}
+		for _, R := range footprint.Roots {
+			for _, srt := range []*Sort{SBool, SInt, SRef, SSlice, SStr} {
+				ts = append(ts, u.objVer(u.heapArr(st, srt), R))
+				sorts = append(sorts, SInt)
+			}
+		}
+	}
 	for _, k := range reads {
 		// the heap enters the application as a version token, not as an array value: applications on the
 		// syntactically same heap are congruent, and solvers never have to decide equality of array terms
@@ -413,6 +448,15 @@ func (u *Unit) pureApp(name string, con *Contract, sig *types.Signature, args []
 		out = append(out, build(rt))
 	}
 	return out
+}
+
+func termListEq(a, b []*Term) bool {
+	for i := range a {
+		if a[i] != b[i] {
+			return false
+		}
+	}
+	return true
 }
 
 // heapGetKey materialises an array by key, reconstructing its sort from the key.
@@ -640,82 +684,88 @@ func (u *Unit) builtinAppend(fc *frameCtx, st *State, pc *Term, argVals []ssa.Va
 		panic(unsupported("append on %s", argVals[0].Type()))
 	}
 	et := stype.Elem()
-	var extra *Term
-	if args[1].T.Sort == SSlice {
-		extra = args[1].T
-	} else {
+	if args[1].T == nil || args[1].T.Sort != SSlice {
 		panic(unsupported("append(bytes, string)"))
 	}
+	extra := args[1].T
 	k := c.SLen(extra)
 	n := c.Add(c.SLen(s), k)
 	fits := c.Le(n, c.SCap(s))
-	var locsProbe []leafLoc
-	u.leafAddrs(c.SElem(s, c.Int(0)), et, &locsProbe)
-	kinds := map[string]bool{}
-	for _, l := range locsProbe {
-		kinds[heapKey(l.Sort)] = true
-	}
-
-	// ---- in-place branch
-	inplace := st.clone()
-	inGuard := c.And(pc, fits, c.Gt(k, c.Int(0)))
-	resIn := c.MkSlice(c.SArr(s), c.SOff(s), n, c.SCap(s))
+	var probe []leafLoc
+	u.leafAddrs(c.SElem(s, c.Int(0)), et, &probe)
+	// The result is described uniformly: res = (arrR, offR, n, capR). If the elements fit, arrR/offR/capR are those
+	// of s (Go writes in place); otherwise arrR is a fresh array. The heap after the append is a new array per
+	// element kind, related to the old one by copy / frame axioms.
+	before := st.clone()
+	arrNew := u.allocObj(st)
+	u.assume(c.And(pc, c.Not(fits)), c.Eq(u.rootType(c.Root(arrNew)), u.arrTypeID(et)))
+	arrR := c.Fresh("app_arr", SRef)
+	offR := c.Fresh("app_off", SInt)
+	capR := c.Fresh("app_cap", SInt)
+	u.assume(pc, c.Ite(fits,
+		c.And(c.Eq(arrR, c.SArr(s)), c.Eq(offR, c.SOff(s)), c.Eq(capR, c.SCap(s))),
+		c.And(c.Eq(arrR, arrNew), c.Eq(offR, c.Int(0)), c.Le(n, capR))))
+	res := c.MkSlice(arrR, offR, n, capR)
+	kConst := int64(-1)
 	if kv, isConst := k.IntVal(); isConst && kv.IsInt64() && kv.Int64() <= 4 {
-		for j := int64(0); j < kv.Int64(); j++ {
-			v := u.load(st, c.SElem(extra, c.Int(j)), et, pc)
-			a := c.SElem(s, c.Add(c.SLen(s), c.Int(j)))
-			var locs []leafLoc
-			u.leafAddrs(a, et, &locs)
-			if !inGuard.IsFalse() {
-				u.checkWriteLocs(fc, inGuard, locs, t.Pos())
+		kConst = kv.Int64()
+	}
+	// frame check for the in-place case
+	inGuard := c.And(pc, fits, c.Gt(k, c.Int(0)))
+	var written []leafLoc
+	if kConst >= 0 {
+		for j := int64(0); j < kConst; j++ {
+			u.leafAddrs(c.SElem(res, c.Add(c.SLen(s), c.Int(j))), et, &written)
+		}
+		if len(written) > 0 && !inGuard.IsFalse() {
+			var chk []leafLoc
+			for j := int64(0); j < kConst; j++ {
+				u.leafAddrs(c.SElem(s, c.Add(c.SLen(s), c.Int(j))), et, &chk)
 			}
-			u.store(inplace, a, et, v)
+			u.checkWriteLocs(fc, inGuard, chk, t.Pos())
 		}
-	} else {
-		fr := &FrameSpec{Roots: []*Term{c.Root(c.SArr(s))}, Kinds: kinds}
-		if !inGuard.IsFalse() {
-			u.checkCalleeFrame(fc, inGuard, fr, "append", t.Pos())
-		}
-		before := st.clone()
-		u.havoc(inplace, inGuard, fr)
-		u.copyElems(inplace, before, inGuard, resIn, c.Int(0), s, c.Int(0), c.SLen(s), et)
-		u.copyElems(inplace, before, inGuard, resIn, c.SLen(s), extra, c.Int(0), k, et)
+	} else if !inGuard.IsFalse() {
+		u.checkCalleeFrame(fc, inGuard, &FrameSpec{Roots: []*Term{c.Root(c.SArr(s))}}, "append", t.Pos())
 	}
-
-	// ---- growing branch: fresh backing array
-	grow := st.clone()
-	growGuard := c.And(pc, c.Not(fits))
-	arr := u.allocObj(grow)
-	u.assume(growGuard, c.Eq(u.rootType(c.Root(arr)), u.arrTypeID(et)))
-	ncap := c.Fresh("newcap", SInt)
-	u.assume(growGuard, c.Ge(ncap, n))
-	resGrow := c.MkSlice(arr, c.Int(0), n, ncap)
-	{
-		before := st.clone()
-		fr := &FrameSpec{Roots: []*Term{c.Root(arr)}, Kinds: kinds}
-		// fresh object: no frame check needed (root >= any bound)
-		ev := &havocEvent{guard: growGuard, frame: fr, bound: grow.alloc, id: len(u.events), arrs: map[string]*Term{}}
-		keys := make([]string, 0, len(kinds))
-		for key := range kinds {
-			keys = append(keys, key)
-		}
-		sort.Strings(keys)
-		for _, key := range keys {
-			grow.heap[key] = u.eventArr(ev, key, u.heapGetKey(grow, key))
-		}
-		u.events = append(u.events, ev)
-		u.copyElems(grow, before, growGuard, resGrow, c.Int(0), s, c.Int(0), c.SLen(s), et)
-		u.copyElems(grow, before, growGuard, resGrow, c.SLen(s), extra, c.Int(0), k, et)
+	// new heap arrays for the element kinds
+	kinds := map[string]*Sort{}
+	for _, l := range probe {
+		kinds[heapKey(l.Sort)] = l.Sort
 	}
-	// ---- nothing appended: Go returns s unchanged when it fits
-	edges := []edge{
-		{nil, c.And(fits, c.Gt(k, c.Int(0))), inplace},
-		{nil, c.Not(fits), grow},
-		{nil, c.And(fits, c.Le(k, c.Int(0))), st.clone()},
+	var keys []string
+	for key := range kinds {
+		keys = append(keys, key)
 	}
-	_, merged := u.mergeStates(edges)
-	*st = *merged
-	res := c.Ite(fits, c.Ite(c.Gt(k, c.Int(0)), resIn, s), resGrow)
+	sort.Strings(keys)
+	for _, key := range keys {
+		srt := kinds[key]
+		prev := u.heapArr(st, srt)
+		na := c.Fresh("Happ_"+sanitizeSym(srt.Name), prev.Sort)
+		st.heap[key] = na
+		// other objects are untouched
+		r := c.BoundVar("r", SRef)
+		cond := c.Neq(c.Root(r), c.Root(arrR))
+		u.assume(pc, c.Forall([]*Term{r}, c.Implies(cond, c.Eq(c.Select(na, r), c.Select(prev, r))), []*Term{c.mk("select", "", srt, na, r)}))
+		rootOfRes := c.Root(arrR)
+		u.addFrameAx(&frameAxiom{na: na, prev: prev, bv: r, cond: cond, guard: pc, at: len(u.assumptions),
+			rootCond: func(R *Term) *Term { return c.Neq(R, rootOfRes) }})
+		// in place: the rest of the array object is untouched
+		if kConst >= 0 {
+			r2 := c.BoundVar("r", SRef)
+			conds := []*Term{fits, c.Eq(c.Root(r2), c.Root(arrR))}
+			for _, w := range written {
+				if w.Sort == srt {
+					conds = append(conds, c.Neq(r2, w.Addr))
+				}
+			}
+			cond2 := c.And(conds...)
+			u.assume(pc, c.Forall([]*Term{r2}, c.Implies(cond2, c.Eq(c.Select(na, r2), c.Select(prev, r2))), []*Term{c.mk("select", "", srt, na, r2)}))
+			u.addFrameAx(&frameAxiom{na: na, prev: prev, bv: r2, cond: cond2, guard: pc, at: len(u.assumptions)})
+		}
+	}
+	// old elements keep their values, new elements are the appended values
+	u.copyElems(st, before, pc, res, c.Int(0), s, c.Int(0), c.SLen(s), et)
+	u.copyElems(st, before, pc, res, c.SLen(s), extra, c.Int(0), k, et)
 	return leaf(res)
 }
 
